@@ -236,6 +236,10 @@ func c01Verify(c *Ctx, f *ssa.Function) {
 		}
 		nsucc++
 		got := normBig(be.plain(ret.Results[0], ret).String())
+		// equality is symmetric: r.Cmp(x) == 0 for x.Cmp(r) == 0
+		if strings.HasPrefix(got, "eq(cmp(r,") && strings.HasSuffix(got, "),0x0)") {
+			got = "eq(cmp(" + strings.TrimSuffix(strings.TrimPrefix(got, "eq(cmp(r,"), "),0x0)") + ",r),0x0)"
+		}
 		c.Check(got == want, "K-C01-verify", fn, "accepting return value", "((e + x1) mod n) == r with (x1,_) = [s]G + [t]P",
 			"the accepting return is not ((e+x1) mod n)==r with x1 from [s]G+[t]P, t=(r+s) mod n: have "+got+" want "+want, ret.Pos())
 	}
